@@ -117,25 +117,22 @@ func v30normalizeProducts() {}
 // operand is a multiple of the product of the identifier divisors, and the first literal
 // multiplier (the first operand if there is none) is a multiple of the product of the literal
 // divisors; m below is the free factor of a multiplier.
-// quick: all values and results are small ints. thorough: also sums of integers up to 10^12
-// (SuInt64 representation) and products with |m|<=99, |d|<=9 for 2..3 operands.
+// quick: all values and results are small ints. thorough: also sums of 2..3 integers up to 10^12
+// (SuInt64 representation).
 //
-//symgo:harness prop=C30 tier=quick arith=int shards=2 tshards=16 timeout=300 ttimeout=1700 qtimeout=20000 bounds=n-ary_+_-_and_*_/_with_2..3_(thorough_4)_operands,_each_a_literal_or_an_identifier;+_-:_integers_|v|<=8000_(thorough_also_10^12);*_/:_multipliers_m*(divisors_they_carry)_|m|<=9,_divisors_1<=|d|<=3_(thorough_also_99_and_9_with_2..3_operands);all_divisions_exact_by_construction outside=decimals_and_inexact_division;zero_divisors;ill-typed_operands;integers_beyond_the_stated_ranges
+//symgo:harness prop=C30 tier=quick arith=int shards=2 tshards=8 timeout=300 ttimeout=1700 qtimeout=20000 bounds=n-ary_+_-_and_*_/_with_2..3_(thorough_4)_operands,_each_a_literal_or_an_identifier;+_-:_integers_|v|<=8000_(thorough_also_|v|<=10^12_with_2..3_operands);*_/:_multipliers_m*(divisors_they_carry)_|m|<=9,_divisors_1<=|d|<=3;all_divisions_exact_by_construction outside=decimals_and_inexact_division;zero_divisors;ill-typed_operands;integers_beyond_the_stated_ranges
 func VerifC30FoldArith() {
-	maxN, wide := 3, false
+	maxN := 3
 	if rt.Thorough() {
-		maxN, wide = 4, rt.Pick("wide", 2) == 1
+		maxN = 4
 	}
-	if rt.Pick("mul", 2) == 0 {
-		if wide {
-			v30add(maxN, 1_000_000_000_000)
-		} else {
-			v30add(maxN, 8000)
-		}
-	} else if wide {
-		v30mul(3, 99, 9)
-	} else {
+	switch {
+	case rt.Pick("mul", 2) == 1:
 		v30mul(maxN, 9, 3)
+	case rt.Thorough() && rt.Pick("wide", 2) == 1:
+		v30add(3, 1_000_000_000_000)
+	default:
+		v30add(maxN, 8000)
 	}
 }
 
@@ -168,7 +165,6 @@ func v30add(maxN, lim int) {
 	})
 	rt.Assert("eval/add-model", v30isInt(v1, want))
 }
-
 
 func v30mul(maxN, mlim, dlim int) {
 	v30normalizeProducts()
@@ -421,11 +417,12 @@ func (m v30term) expr(b Builder) Expr {
 }
 
 // C30 range folding (x > a and x < b => InRange) and or-to-in folding (x is a or x is b => in).
-// Two comparisons of the identifiers x / y with literals (thorough: also identifiers), optionally
+// Two comparisons of the identifiers x / y with literals (thorough: the first also with an
+// identifier), optionally
 // a further boolean identifier before, between or after them (as the parser builds `p and x > a
 // and x < b`).
 //
-//symgo:harness prop=C30 tier=quick shards=3 tshards=8 timeout=300 ttimeout=1700 bounds=and_of_two_comparisons_(<_<=_>_>=)_and_or_of_two_is-comparisons,_of_identifier_x_then_x_or_y,_with_literals_(thorough_or_identifiers);first_comparison_written_either_way_round;optional_boolean_identifier_term_before_or_after_(thorough_also_between);values:identifiers_number|string_(thorough_also_boolean),_literal_pairs_number-number|string-string|number-string;numbers_any_int8,_strings_0..1_(thorough_2)_bytes outside=member_expressions_(.x);more_than_two_comparisons;decimals
+//symgo:harness prop=C30 tier=quick shards=3 tshards=8 timeout=300 ttimeout=1700 bounds=and_of_two_comparisons_(<_<=_>_>=)_and_or_of_two_is-comparisons,_of_identifier_x_then_x_or_y,_with_literals_(thorough:_the_first_also_an_identifier);first_comparison_written_either_way_round;optional_boolean_identifier_term_before_or_after_(thorough_also_between);values:identifiers_number|string_(thorough_also_boolean),_literal_pairs_number-number|number-string_(thorough_also_string-string);numbers_any_int8,_strings_0..1_(thorough_2)_bytes outside=member_expressions_(.x);more_than_two_comparisons;decimals
 func VerifC30FoldRangeIn() {
 	ctx := &v30ctx{}
 	isOr := rt.Pick("or", 2) == 1
@@ -439,10 +436,14 @@ func VerifC30FoldRangeIn() {
 	if rt.Pick("second-id", 2) == 1 {
 		id2 = ctx.id("y", v30value("vy", xk))
 	}
-	lk := [][2]int{{v30kInt, v30kInt}, {v30kStr, v30kStr}, {v30kInt, v30kStr}}[rt.Pick("litkinds", 3)]
+	lks := [][2]int{{v30kInt, v30kInt}, {v30kInt, v30kStr}}
+	if rt.Thorough() {
+		lks = append(lks, [2]int{v30kStr, v30kStr})
+	}
+	lk := lks[rt.Pick("litkinds", len(lks))]
 	var a, c v30opd
 	if rt.Thorough() {
-		a, c = ctx.opd("a", v30value("va", lk[0])), ctx.opd("c", v30value("vc", lk[1]))
+		a, c = ctx.opd("a", v30value("va", lk[0])), ctx.lit(v30value("vc", lk[1]))
 	} else {
 		a, c = ctx.lit(v30value("va", lk[0])), ctx.lit(v30value("vc", lk[1]))
 	}
